@@ -35,6 +35,17 @@ example : (lookup (c!"a") (groupByKey (c!"k")
 theorem group_keys_nodup (key : Str) (rows : List Cells) : ((groupByKey key rows).map (·.1)).Nodup := by
   apply keys_nodup_fold; simp
 
+/-- The lists come in the order in which their names first occur on the sheet. -/
+theorem group_keys_order (key : Str) (rows : List Cells) :
+    (groupByKey key rows).map (·.1) = Spec.listNames key rows := by
+  have := keys_fold key rows []
+  simp only [List.map_nil] at this
+  rw [groupByKey, this, foldl_appendNew]
+  simp [Spec.listNames]
+
+example : (groupByKey c!"k" [[(c!"k", c!"b")], [(c!"k", c!"a")], [(c!"n", c!"x")], [(c!"k", c!"b")]]).map (·.1) = [c!"b", c!"a"] := by
+  decide +kernel
+
 /-- End to end: the options of list `l` are the sheet's rows of `l`, in order, each read by `choiceOf`. -/
 theorem choices_of_list (cols : List Str) (l : Str) (rows : List Cells) :
     (lookup l (choicesOf cols rows)).getD [] = (Spec.listRows listKey l rows).map (choiceOf (badHeaders cols)) := by
@@ -101,6 +112,48 @@ theorem uri_scheme (f n : Str) :
 
 example : (fromFileInst (c!"cities.csv")).map (·.src) = some (some (c!"jr://file-csv/cities.csv")) := by decide
 example : (fromFileInst (c!"g.geojson")).map (fun i => (i.name, i.src)) = some (c!"g", some (c!"jr://file/g.geojson")) := by decide
+
+/-! ## … through to the document: ids of the rendered `<instance>` elements -/
+
+open Pyxv.Xml in
+/-- The `<model>` element holding the emitted instances between any other element children that carry no
+    instance id (itext, the primary instance, binds …), written by the compact writer and read back by an XML
+    reader: the ids of its `<instance id=…>` children are the emitted instances' names, in order, pairwise
+    distinct.  `hwf` is C01's well-formedness guard (names are XML names, text and attribute characters are
+    XML characters without TAB / CR / LF in attribute values). -/
+theorem document_ids_unique (is out : List Inst) (h : emitInsts [] is = some out)
+    (attrs : List (Str × Str)) (pre post : List Node)
+    (hpre : ∀ k ∈ pre, isElem k = true) (hpost : ∀ k ∈ post, isElem k = true)
+    (npre : pre.filterMap instanceId = []) (npost : post.filterMap instanceId = [])
+    (hwf : (Node.elem c!"model" attrs (pre ++ out.map instNode ++ post)).WF = true) :
+    ∃ doc, parseDoc (renderDoc false (.elem c!"model" attrs (pre ++ out.map instNode ++ post))) = some doc ∧
+      instanceIds doc = out.map (·.name) ∧ (instanceIds doc).Nodup := by
+  refine ⟨_, render_parses_compact _ hwf rfl, ?_, ?_⟩
+  · rw [instanceIds_expected]
+    · rw [List.filterMap_append, List.filterMap_append, npre, npost, ids_instNodes]; simp
+    · intro k hk
+      simp only [List.mem_append, List.mem_map] at hk
+      rcases hk with (hk | ⟨i, _, rfl⟩) | hk
+      · exact hpre k hk
+      · exact isElem_instNode i
+      · exact hpost k hk
+  · rw [instanceIds_expected]
+    · rw [List.filterMap_append, List.filterMap_append, npre, npost, ids_instNodes]
+      simpa using instance_ids_nodup is out h
+    · intro k hk
+      simp only [List.mem_append, List.mem_map] at hk
+      rcases hk with (hk | ⟨i, _, rfl⟩) | hk
+      · exact hpre k hk
+      · exact isElem_instNode i
+      · exact hpost k hk
+
+/-- the rendered id of an instance element is the instance's name -/
+theorem rendered_id (i : Inst) : instanceId (instNode i) = some i.name := instanceId_instNode i
+
+example : instText (pulldataInst c!"pd") = c!"<instance id=\"pd\" src=\"jr://file-csv/pd.csv\"/>" := by decide +kernel
+example : instText (staticInst c!"l" [choiceOf [] [(c!"name", c!"a"), (c!"label", c!"A & b")]])
+    = c!"<instance id=\"l\"><root><item><name>a</name><label>A &amp; b</label></item></root></instance>" := by decide +kernel
+example : (Xml.Node.elem c!"model" [] ([pulldataInst c!"pd", staticInst c!"l" []].map instNode)).WF = true := by decide +kernel
 
 /-! ## search(): inline items only -/
 
@@ -232,6 +285,76 @@ theorem csv_cells (header : List Str) (rows : List Cells) :
 example : parseCsv (itemsetsCsv [c!"list_name", c!"name", c!"a"]
     [[(c!"list_name", c!"e"), (c!"a", c!"x\"y,\nz")], [(c!"name", c!"n"), (c!"list_name", c!"e")]])
     = [[c!"list_name", c!"name", c!"a"], [c!"e", [], c!"x\"y,\nz"], [c!"e", c!"n", []]] := by decide +kernel
+
+/-! ## from the raw cells: `parameters` parsing and header dealiasing inside the model -/
+
+theorem startsWith_append (p k : Str) : startsWith (p ++ k) p = true := by
+  induction p with
+  | nil => cases k <;> simp [startsWith]
+  | cons c cs ih => simp [startsWith, ih]
+
+theorem paramsOf_append (a b : Cells) : paramsOf (a ++ b) = paramsOf a ++ paramsOf b := by
+  simp [paramsOf, List.filterMap_append]
+
+theorem paramsOf_prefixed (ps : Cells) :
+    paramsOf (ps.map fun kv => (c!"parameters::" ++ kv.1, kv.2)) = ps := by
+  induction ps with
+  | nil => rfl
+  | cons kv rest ih =>
+    have h := startsWith_append c!"parameters::" kv.1
+    simp only [paramsOf, List.map_cons, List.filterMap_cons] at ih ⊢
+    rw [h]
+    simp only [if_true]
+    rw [ih]
+    simp
+
+/-- The parameters a select sees are exactly `parameters_generic.parse` of the raw `parameters` cell
+    (`Pyxv.Controls.parseParams`), in the order of the cell. -/
+theorem params_from_raw_cell (r r' : Cells) (raw : Str) (ps : Cells)
+    (h1 : lookup c!"parameters" r = some raw) (hA : Controls.isAscii raw = true)
+    (h2 : Controls.parseParams raw = some ps) (h3 : expandParams r = some r')
+    (h4 : paramsOf (r.filter fun kv => kv.1 ≠ c!"parameters") = []) :
+    paramsOf r' = ps := by
+  simp only [expandParams, h1, hA, h2] at h3
+  simp at h3
+  subst h3
+  simp at h4
+  have hp := paramsOf_prefixed ps
+  simp at hp
+  rw [paramsOf_append, h4, hp]
+  rfl
+
+/-- The itemset nodeset stated from the raw `parameters` cell: for every raw cell that parses, the nodeset is
+    the decision table's for the parsed parameters. -/
+theorem itemset_nodeset_raw (r r' : Cells) (raw : Str) (ps : Cells) (q : SelIn)
+    (h1 : lookup c!"parameters" r = some raw) (hA : Controls.isAscii raw = true)
+    (h2 : Controls.parseParams raw = some ps) (h3 : expandParams r = some r')
+    (h4 : paramsOf (r.filter fun kv => kv.1 ≠ c!"parameters") = [])
+    (hq : q.params = paramsOf r') :
+    (itemsetOf q).nodeset = Spec.nodeset { q with params := ps } := by
+  have := params_from_raw_cell r r' raw ps h1 hA h2 h3 h4
+  rw [itemset_nodeset]
+  congr 1
+  cases q; simp_all
+
+example : (expandParams [(c!"type", c!"select_one l"), (c!"parameters", c!"randomize=true, seed=4")]).map paramsOf
+    = some [(c!"randomize", c!"true"), (c!"seed", c!"4")] := by decide +kernel
+
+/-! header dealiasing of the columns this slice reads (alias tables regenerated from the source) -/
+theorem choices_headers_canon :
+    canonKey false Headers.listAliases Headers.listColumns c!"list_name" = some c!"list name" ∧
+    canonKey false Headers.listAliases Headers.listColumns c!"list name" = some c!"list name" ∧
+    canonKey false Headers.listAliases Headers.listColumns c!"image" = some c!"media::image" ∧
+    canonKey true Headers.listAliases Headers.listColumns c!"label::en" = some c!"label::en" ∧
+    canonKey false Headers.listAliases Headers.listColumns c!"my_col" = some c!"my_col" := by decide +kernel
+
+theorem survey_headers_canon :
+    canonKey false Headers.surveyAliases Headers.surveyColumns c!"relevant" = some c!"bind::relevant" ∧
+    canonKey false Headers.surveyAliases Headers.surveyColumns c!"calculation" = some c!"bind::calculate" ∧
+    canonKey false Headers.surveyAliases Headers.surveyColumns c!"read_only" = some c!"bind::readonly" ∧
+    canonKey false Headers.surveyAliases Headers.surveyColumns c!"appearance" = some c!"control::appearance" ∧
+    canonKey false Headers.surveyAliases Headers.surveyColumns c!"choice_filter" = some c!"choice_filter" ∧
+    canonKey false Headers.surveyAliases Headers.surveyColumns c!"parameters" = some c!"parameters" := by decide +kernel
 
 /-! ## cleaning of the choices / external_choices cells -/
 
